@@ -46,8 +46,8 @@ func init() {
 		t, ok := v.(*Term)
 		if !ok {
 			c := int64(v.(int))
-			if i.sh.opts.pin != nil {
-				if _, has := i.sh.opts.pin[name]; !has {
+			if pin := i.pinMap(); pin != nil {
+				if _, has := pin[name]; !has {
 					c = lo
 				}
 			}
@@ -84,6 +84,9 @@ func init() {
 	reg("Assert", extVrtAssert)
 	reg("Reach", func(fr *frame, args []value) value {
 		sh := fr.i.sh
+		if fr.i.warm {
+			return nil
+		}
 		sh.mu.Lock()
 		sh.reach[strArg(args[0])]++
 		sh.mu.Unlock()
@@ -132,7 +135,7 @@ func init() {
 	})
 	reg("Ghost", func(fr *frame, args []value) value {
 		i := fr.i
-		if i.sh.opts.pin != nil {
+		if i.pinMap() != nil {
 			return nil
 		}
 		// A ghost may be re-defined as the harness proceeds: each definition binds a fresh
@@ -158,6 +161,17 @@ func init() {
 		return &opaqueSlice{n: args[0]}
 	})
 	reg("Symbolic", func(fr *frame, args []value) value { return fr.i.sh.opts.pin == nil })
+}
+
+var warmPin = map[string]*big.Int{}
+
+// pinMap returns the pinned input values (replay mode), an empty pinning during the warm-up run
+// (every input is zero), or nil when inputs are symbolic.
+func (i *interpreter) pinMap() map[string]*big.Int {
+	if i.warm {
+		return warmPin
+	}
+	return i.sh.opts.pin
 }
 
 func strArg(v value) string {
@@ -208,7 +222,7 @@ func (i *interpreter) nondetVar(name string, t types.Type) value {
 	if ik, ok := basicIntKind(t); ok {
 		w = ik.w
 	}
-	if pin := i.sh.opts.pin; pin != nil {
+	if pin := i.pinMap(); pin != nil {
 		v := pin[name]
 		if v == nil {
 			v = big.NewInt(0)
@@ -235,6 +249,12 @@ func extVrtAssert(fr *frame, args []value) value {
 	ps := i.ps
 	label := strArg(args[0])
 	sh := i.sh
+	if i.warm {
+		if c, ok := args[1].(bool); ok && !c {
+			panic(pathAbort{kind: "violation-end", info: label})
+		}
+		return nil
+	}
 	note := func(sym bool) {
 		sh.mu.Lock()
 		ls := sh.label(label)
@@ -266,6 +286,7 @@ func extVrtAssert(fr *frame, args []value) value {
 			ps.pos++
 			ps.trace = append(ps.trace, v)
 			ps.assume(c)
+			ps.replayed()
 			return nil
 		}
 		note(true)
@@ -302,6 +323,9 @@ func extVrtAssert(fr *frame, args []value) value {
 func (i *interpreter) knownOnly(label string, nc *Term) bool {
 	sh := i.sh
 	tb := i.tb
+	if i.warm {
+		return true
+	}
 	i.violLit = nc
 	var kfs []knownFinding
 	for _, k := range sh.known {
@@ -381,6 +405,7 @@ func (i *interpreter) assumeChecked(c *Term) {
 		ps.pos++
 		ps.trace = append(ps.trace, v)
 		ps.assume(c)
+		ps.replayed()
 		return
 	}
 	ps.pos++
